@@ -41,6 +41,8 @@ struct OpWindow {
     j_end: usize,
     /// durable logical contents acceptable while this op is in flight
     allowed: Vec<View>,
+    /// durable logical content once the op has returned
+    after: View,
 }
 
 fn open_and_dump(root: &Path, cfg: &CfgSpec) -> Result<View, String> {
@@ -269,7 +271,8 @@ pub fn run_crash(prop: &PropDef, spec: &RunSpec, workdir: &Path, index: u64) -> 
                 name: "create".into(),
                 j_begin: jb,
                 j_end: simfs::journal_len(),
-                allowed: vec![before0],
+                allowed: vec![before0.clone()],
+                after: before0,
             });
             let ops = e.spec.ops.clone();
             for (i, op) in ops.iter().enumerate() {
@@ -302,8 +305,8 @@ pub fn run_crash(prop: &PropDef, spec: &RunSpec, workdir: &Path, index: u64) -> 
                 e.step(op)?;
                 let je = simfs::journal_len();
                 let after = e.model.durable_view();
-                if after != before {
-                    allowed.push(after);
+                if !allowed.contains(&after) {
+                    allowed.push(after.clone());
                 }
                 if je > jb {
                     windows.push(OpWindow {
@@ -312,6 +315,7 @@ pub fn run_crash(prop: &PropDef, spec: &RunSpec, workdir: &Path, index: u64) -> 
                         j_begin: jb,
                         j_end: je,
                         allowed,
+                        after,
                     });
                 }
             }
@@ -403,7 +407,7 @@ pub fn run_crash(prop: &PropDef, spec: &RunSpec, workdir: &Path, index: u64) -> 
         }
         match last {
             Some(w) => (
-                vec![w.allowed.last().cloned().unwrap_or_default()],
+                vec![w.after.clone()],
                 format!("after {} (op #{}) returned", w.name, w.op_idx as i64),
             ),
             None => (vec![View::new()], "before the tree was created".into()),
